@@ -247,7 +247,7 @@ def counterexample(cmd, h, scratch, env):
 
 def replay_on_real_code(unit, k, h, cex, scratch, env):
     """turn the concrete values into an ordinary #[test] next to the real code and run it with the normal toolchain"""
-    vals = [v["value"] for v in cex.get("concrete_values", [])]
+    vals = [re.sub(r"(ul|u|l)$", "", v["value"]) for v in cex.get("concrete_values", [])]
     body = h["replay"]
     for i, v in enumerate(vals):
         body = body.replace("{v%d}" % i, v)
